@@ -44,3 +44,14 @@ PROP["manifest"]["level_text"] += (
     "timestamp <= the stored one; and an API call whose units for the target are all rejected leaves the leaf and A unchanged "
     "(rejected_never_changes_leaf). stored_is_max_accepted_withServerName: the same for histories whose Add is State.addWith (the "
     "driver's Add, caches created WithServerName).")
+# --- round 2 (builder bVALEQ): the suppression test is Go's value.Equal (Props/C19ValueEq.lean); multi = units at
+# Target.GnmiUpdate level without a future threshold (Props/C03MultiNoThr.lean)
+PROP["modules"] += ["Gnmi.Props.C19ValueEq", "Gnmi.Props.C03MultiNoThr"]
+PROP["theorems"] += ["Gnmi.C19.valueEqual_eq_equal", "Gnmi.C19.valueEqual_symm", "Gnmi.C19.valueEqual_sound",
+                     "Gnmi.C03.multi_eq_units_at_gnmiUpdate_no_threshold", "Gnmi.C03.multi_eq_units_at_gnmiUpdate_no_threshold_full",
+                     "Gnmi.C03.dispatch_setLatest"]
+PROP["manifest"]["level_text"] += (
+    " The 'identical value' test of the event-driven rule (Cache.valueEqual) is proved equal to the C19 model of value.Equal on every value "
+    "the cache model holds (valueEqual_eq_equal; symmetric and sound: valueEqual_symm, valueEqual_sound); a notification with several "
+    "updates/deletes stores what its units one at a time store when no future threshold is configured "
+    "(multi_eq_units_at_gnmiUpdate_no_threshold; with a threshold: known finding D26).")
